@@ -6,6 +6,7 @@ import (
 	"go/types"
 	"os"
 	"strings"
+	"time"
 
 	"golang.org/x/tools/go/ssa"
 )
@@ -458,6 +459,10 @@ func (fr *frame) run() {
 		}
 		e.steps += int64(len(instrs))
 		e.fnSteps[fr.fn] += int64(len(instrs))
+		if dl := e.eng.deadline; !dl.IsZero() && time.Since(dl) > 30*time.Second {
+			// a single path must not outlive the exploration budget
+			e.endPath("not-explored(path-budget)", "path still running 30 s after the exploration budget ended")
+		}
 		if e.steps > e.maxSteps {
 			e.endPath(stSteps, fmt.Sprintf("more than %d SSA instructions on one path (in %s)", e.maxSteps, fr.fn))
 		}
